@@ -58,10 +58,12 @@ def isHdrFrom (it : Item) : Prop := ∃ to f comp, it = .hdr to (some f) comp
 
 /-! ### group 1: configuration -/
 
-structure InvCfg (jid : Option Bytes) (cjid dom : Option Bytes) (ctype : CType) (state : CState) : Prop where
+structure InvCfg (jid : Option Bytes) (cjid dom : Option Bytes) (ctype : CType) (state : CState)
+    (hasSm : Bool) : Prop where
   jidEq : cjid = jid
   dom : state ≠ .disconnected →
     ∃ j, jid = some j ∧ dom = some (if ctype = .component then j else Jid.domain j)
+  hsm : state ≠ .disconnected → hasSm = true
 
 /-! ### group 2: queues and the wire log -/
 
@@ -151,6 +153,7 @@ structure InvF (p : Par) (state : CState) (pst : PSt) (resetParser isRaw : Bool)
   rw : isRaw = true → p.rb = true
   rpB : resetParser = true → p.rpb = true
   rp : pst = .fresh → state = .connected → resetParser = false
+  rd : state = .disconnected → isRaw = false
 
 structure InvH (x y : Option Nat) (xs : Bool) (mb : Nat) (state : CState) (secured smE smR : Bool) (pst : PSt)
     (resetParser : Bool) (oh : OpenH) (isRaw : Bool)
@@ -163,6 +166,7 @@ structure InvH (x y : Option Nat) (xs : Bool) (mb : Nat) (state : CState) (secur
   xsOk : ∀ u, x = some u → (xs = true → ∀ k ∈ ik, k.1 ≠ u) ∧ (xs = false → ∀ k ∈ hk, k.1 ≠ u)
   userH : ∀ k ∈ hk ++ ik, (k.2.1 = .userAll ↔ k.2.2 = true)
   userT : ∀ k ∈ tk, (k.2.1 = .userTimed ↔ k.2.2 = true)
+  tfn : ∀ k1 ∈ tk, ∀ k2 ∈ tk, k1.2.1 = k2.2.1 → k1 = k2
   idk : ∀ k ∈ ik, k.2.1 = .sys .bind ∨ k.2.1 = .sys .session ∨ k.2.1 = .sys .legacy
   one : ∀ k1 ∈ hk ++ ik, ∀ k2 ∈ hk ++ ik, negK k1 → negK k2 → x ≠ some k1.1 → x ≠ some k2.1 → k1 = k2
   phase : ∀ k ∈ hk ++ ik, ∀ s, k.2.1 = .sys s → s ≠ .error → x ≠ some k.1 →
@@ -181,7 +185,7 @@ structure InvH (x y : Option Nat) (xs : Bool) (mb : Nat) (state : CState) (secur
 /-! ### the invariant -/
 
 structure Inv (jid : Option Bytes) (U : Item → Prop) (NR : Prop) (p : Par) (c : Conn) : Prop where
-  cfg : InvCfg jid c.jid c.domain c.ctype c.state
+  cfg : InvCfg jid c.jid c.domain c.ctype c.state c.hasSm
   q : InvQ jid U NR p.w c.state c.hasTls c.g.notifiedConnect c.queue c.sm.queue c.tx
   e : InvE c.g c.evs
   gg : InvG c.state c.negotiated c.secured c.hasTls c.saslSupport c.compSupported c.bindRequired
@@ -228,6 +232,7 @@ theorem InvH.addCore {x y xs mb st sec smE smR pst rp oh raw hk ik tk n g}
     · exact h.userH k a
     · subst a; exact hu
   · exact h.userT
+  · exact h.tfn
   · intro k a; rcases memI k a with b | b
     · exact h.idk k b
     · exact b.2
@@ -316,11 +321,18 @@ theorem InvH.addI {x y xs mb st sec smE smR pst rp oh raw hk ik tk n g}
 
 theorem InvH.addT {x y xs mb st sec smE smR pst rp oh raw hk ik tk n g}
     (h : InvH x y xs mb st sec smE smR pst rp oh raw hk ik tk n g) (fn : TFun) (usr : Bool)
-    (hu : fn = .userTimed ↔ usr = true)
+    (hu : fn = .userTimed ↔ usr = true) (hfresh : ∀ k ∈ tk, k.2.1 ≠ fn)
     (hmf : fn = .missingFeatures →
       g.authOk = false ∧ ∃ k' ∈ hk ++ ik, k'.2.1 = .sys .features ∧ x ≠ some k'.1) :
     InvH x y xs mb st sec smE smR pst rp oh raw hk ik ((n, fn, usr) :: tk) (n + 1) g := by
-  refine { h with uidH := ?_, uidT := ?_, uidX := ?_, uidY := ?_, userT := ?_, t1 := ?_, mbN := Nat.le_succ_of_le h.mbN }
+  have htfn : ∀ k1 ∈ (n, fn, usr) :: tk, ∀ k2 ∈ (n, fn, usr) :: tk, k1.2.1 = k2.2.1 → k1 = k2 := by
+    intro k1 a1 k2 a2 e
+    rcases List.mem_cons.1 a1 with b1 | b1 <;> rcases List.mem_cons.1 a2 with b2 | b2
+    · rw [b1, b2]
+    · subst b1; exact absurd e.symm (hfresh k2 b2)
+    · subst b2; exact absurd e (hfresh k1 b1)
+    · exact h.tfn k1 b1 k2 b2 e
+  refine { h with uidH := ?_, uidT := ?_, uidX := ?_, uidY := ?_, userT := ?_, t1 := ?_, mbN := Nat.le_succ_of_le h.mbN, tfn := htfn }
   · intro k a; exact Nat.lt_succ_of_lt (h.uidH k a)
   · intro k a; rcases List.mem_cons.1 a with a | a
     · subst a; exact Nat.lt_succ_self _
@@ -338,6 +350,7 @@ theorem InvH.subT {x y xs mb st sec smE smR pst rp oh raw hk ik tk tk' n g}
     (h : InvH x y xs mb st sec smE smR pst rp oh raw hk ik tk n g) (sub : ∀ k ∈ tk', k ∈ tk) :
     InvH x y xs mb st sec smE smR pst rp oh raw hk ik tk' n g :=
   { h with uidT := fun k a => h.uidT k (sub k a), userT := fun k a => h.userT k (sub k a),
+           tfn := fun k1 a1 k2 a2 => h.tfn k1 (sub k1 a1) k2 (sub k2 a2),
            t1 := fun k a => h.t1 k (sub k a) }
 
 /-- the handler with uid `u` that was running is removed -/
@@ -356,6 +369,7 @@ theorem InvH.fireCore {y xs mb st sec smE smR pst rp oh raw hk ik tk n g} (u : N
   · intro u' a; cases a
   · intro k a; exact h.userH k ((mem k).1 a).1
   · exact h.userT
+  · exact h.tfn
   · intro k a; exact h.idk k (memI k a)
   · intro k1 a1 k2 a2 n1 n2 _ _
     exact h.one k1 ((mem k1).1 a1).1 k2 ((mem k2).1 a2).1 n1 n2 (ne k1 ((mem k1).1 a1).2) (ne k2 ((mem k2).1 a2).2)
@@ -404,7 +418,9 @@ theorem InvH.fireI {y mb st sec smE smR pst rp oh raw hk ik tk n g} (u : Nat)
 theorem InvH.fireT {x xs mb st sec smE smR pst rp oh raw hk ik tk n g} (v : Nat)
     (h : InvH x (some v) xs mb st sec smE smR pst rp oh raw hk ik tk n g) :
     InvH x none xs mb st sec smE smR pst rp oh raw hk ik (tk.filter (·.1 ≠ v)) n g := by
-  refine { h with uidT := ?_, uidY := ?_, userT := ?_, t1 := ?_ }
+  have htfn : ∀ k1 ∈ tk.filter (·.1 ≠ v), ∀ k2 ∈ tk.filter (·.1 ≠ v), k1.2.1 = k2.2.1 → k1 = k2 :=
+    fun k1 a1 k2 a2 => h.tfn k1 (List.mem_filter.1 a1).1 k2 (List.mem_filter.1 a2).1
+  refine { h with uidT := ?_, uidY := ?_, userT := ?_, t1 := ?_, tfn := htfn }
   · intro k a; exact h.uidT k (List.mem_filter.1 a).1
   · intro u a; cases a
   · intro k a; exact h.userT k (List.mem_filter.1 a).1
@@ -432,5 +448,26 @@ theorem InvH.enterT {x xs mb st sec smE smR pst rp oh raw hk ik tk n g} (v : Nat
   refine { h with uidY := ?_, t1 := ?_ }
   · intro u' a; cases a; exact hv
   · intro k a b _; exact h.t1 k a b (by simp)
+
+/-- regular handlers are removed while no `missingFeatures` timer is live -/
+theorem InvH.subH {x y xs mb st sec smE smR pst rp oh raw hk hk' ik tk n g}
+    (h : InvH x y xs mb st sec smE smR pst rp oh raw hk ik tk n g) (sub : hk'.Sublist hk)
+    (hnt : ∀ k ∈ tk, k.2.1 = .missingFeatures → y = some k.1) :
+    InvH x y xs mb st sec smE smR pst rp oh raw hk' ik tk n g := by
+  have mem : ∀ k, k ∈ hk' ++ ik → k ∈ hk ++ ik := by
+    intro k a; rcases List.mem_append.1 a with a | a
+    · exact List.mem_append.2 (Or.inl (sub.subset a))
+    · exact List.mem_append.2 (Or.inr a)
+  refine { h with uidH := fun k a => h.uidH k (mem k a),
+                  nd := ((sub.append (List.Sublist.refl _)).map _).nodup h.nd,
+                  xsOk := fun u a => ⟨(h.xsOk u a).1, fun e k b => (h.xsOk u a).2 e k (sub.subset b)⟩,
+                  userH := fun k a => h.userH k (mem k a),
+                  one := fun k1 a1 k2 a2 => h.one k1 (mem k1 a1) k2 (mem k2 a2),
+                  phase := fun k a => h.phase k (mem k a),
+                  fr := fun hf => ⟨fun k a => (h.fr hf).1 k (mem k a), (h.fr hf).2⟩,
+                  t1 := fun k a b' c' => absurd (hnt k a b') c',
+                  cgH := fun hc k a => h.cgH hc k (mem k a),
+                  raw := fun hd hr => ⟨(h.raw hd hr).1, fun k a => (h.raw hd hr).2 k (mem k a)⟩,
+                  lv := fun hd k a => h.lv hd k (mem k a) }
 
 end Strophe.Lemmas.ConnC03
